@@ -283,7 +283,7 @@ func (x *Exec) mapLen(st *State, mv Value) Value {
 	mk, _, _ := mapKeys(mv.Ty)
 	h := st.heapTermIn(st.heap, mk+"#len", 1, "Int")
 	v := Value{K: VInt, T: "(select " + h + " " + mv.T + ")", Ty: types.Typ[types.Int]}
-	st.assume("(>= " + v.T + " 0)")
+	st.assume("(and (>= " + v.T + " 0) (<= " + v.T + " 140737488355328))") // (a map cannot hold more entries than bytes of address space)
 	return v
 }
 
